@@ -75,7 +75,7 @@ impl<T> PublishedItem<T> {
 }
 ''')
     U.struct(CA, 'Revocation', derive=['Clone'])
-    U.struct(CA, 'Revocations', derive=['Clone'])
+    U.struct(CA, 'Revocations', derive=['Clone'], default_ensures=[('empty', 'forall |id: (Serial, Time)| !r.has(id)')])
     U.struct(CA, 'CertInfo', derive=['Clone'])
     U.struct(CH, 'ChildCertificateUpdates', clone='none', derive=[])
     U.struct(PUB, 'PublishedItem', clone='none', derive=[])
